@@ -124,6 +124,29 @@ class OsProxy:
         W.stop("rename")
         return os.replace(a, b)
 
+    def _extra(self, name, *a, **k):
+        if a and str(a[0]).endswith(PROTOCOL_SUFFIXES):
+            W.stop("extra:os." + name)
+        return getattr(os, name)(*a, **k)
+
+    def open(self, *a, **k):
+        return self._extra("open", *a, **k)
+
+    def rename(self, *a, **k):
+        return self._extra("rename", *a, **k)
+
+    def remove(self, *a, **k):
+        return self._extra("remove", *a, **k)
+
+    def unlink(self, *a, **k):
+        return self._extra("unlink", *a, **k)
+
+    def link(self, *a, **k):
+        return self._extra("link", *a, **k)
+
+    def mkdir(self, *a, **k):
+        return self._extra("mkdir", *a, **k)
+
 
 class TimeProxy:
     def __getattr__(self, n):
@@ -152,6 +175,7 @@ class FakeFFI:
             raise RuntimeError("linker failed (injected)")
         with open(target, "wb") as f:
             f.write(W.so_bytes)
+        W.ncompiles = getattr(W, "ncompiles", 0) + 1
 
 
 class FakeLib:
@@ -197,9 +221,32 @@ def fake_codegen(ufl_objects, namespace=None, options=None, visualise=False):
     return ("/* header */", "/* source */"), (".h", ".c")
 
 
+PROTOCOL_SUFFIXES = (".c", ".c.cached", ".c.failed")
+
+
+def hook_pathlib():
+    """file-system primitives the protocol does not use today (pathlib methods, os.open, os.rename ...) become stops
+    too when they touch a protocol file from a request thread: a rewritten protocol is then still interleaved at
+    every file-system call, and the property is judged on the real outcome.  On the unchanged jit.py none fires."""
+    import pathlib
+
+    def wrap(cls, name):
+        orig = getattr(cls, name)
+
+        def hooked(self, *a, **k):
+            if getattr(W.local, "pid", None) is not None and str(self).endswith(PROTOCOL_SUFFIXES):
+                W.stop("extra:" + name)
+            return orig(self, *a, **k)
+        setattr(cls, name, hooked)
+    for name in ("exists", "is_file", "touch", "open", "unlink", "rename", "replace", "write_text", "write_bytes", "stat"):
+        if hasattr(pathlib.Path, name):
+            wrap(pathlib.Path, name)
+
+
 def install():
     import ffcx.codegeneration.jit as jit
     import ffcx.compiler
+    hook_pathlib()
     jit.open = hooked_open
     jit.os = OsProxy()
     jit.time = TimeProxy()
@@ -217,6 +264,7 @@ def run_schedule(jit, forms, spec, timeout):
     rng = random.Random(spec["seed"])
     cache = tempfile.mkdtemp(prefix="vfjitc_")
     W.waiting.clear(); W.grant.clear(); W.done.clear()
+    W.ncompiles = 0
     root = logging.getLogger()
     orig_handlers = list(root.handlers)
     events = []          # model events as tuples
@@ -224,6 +272,7 @@ def run_schedule(jit, forms, spec, timeout):
     state = {}           # pid -> "waiter" | "builder" | None
     swapped = {}
     outcomes = {}
+    errors = {}
 
     def request(pid):
         W.local.pid = pid
@@ -240,6 +289,7 @@ def run_schedule(jit, forms, spec, timeout):
             out = "LoadedPartial"
         except Exception as e:  # noqa: BLE001
             out = "RaisedBuild"
+            errors[pid] = f"{type(e).__name__}: {e}"[:200]
         with W.cv:
             W.done[pid] = out
             W.cv.notify_all()
@@ -341,7 +391,8 @@ def run_schedule(jit, forms, spec, timeout):
             "so": so_state(cache, W.module_name)}
     shutil.rmtree(cache, ignore_errors=True)
     return {"seed": spec["seed"], "events": events, "outcomes": [outcomes.get(p, "Running") for p in range(len(threads))],
-            "swapped": [bool(swapped.get(p, False)) for p in range(len(threads))], "fs": fsys, "spec": spec}
+            "swapped": [bool(swapped.get(p, False)) for p in range(len(threads))], "fs": fsys, "spec": spec,
+            "real_compiles": W.ncompiles, "errors": dict(errors)}
 
 
 def main():
